@@ -135,7 +135,8 @@ impl Parser for MarkdownParser {
                     for (index, line) in &code_lines {
                         line_parser.add_testcase_body(line, *index)?;
                     }
-                    line_parser.end_testcase(code_lines[code_lines.len() - 1].0)?;
+                    // an empty block (or one with comments only) has no last line
+                    line_parser.end_testcase(code_lines.last().map_or(0, |(index, _)| *index))?;
                     title_paragraph.clear();
                 }
             }
